@@ -5,8 +5,7 @@
 (* section coordinates.  TLC enumerates the valid configurations; each becomes   *)
 (* one contract trace recorded from the real library (harness/c09.py).           *)
 EXTENDS Integers, TLC, Json
-CONSTANTS Systems, Points, Degrees
-DirClasses == {"planar", "vertical", "mixed", "mixed2"}
+CONSTANTS Systems, Points, Degrees, DirClasses
 Sections == {"q2", "p2", "q3", "p3"}
 VARIABLES c
 Cfgs == [system : Systems, point : 1 .. 5, degree : Degrees, kind : {"direction", "section"}, what : DirClasses \cup Sections]
